@@ -890,7 +890,9 @@ pub fn guest_export_params_have_allocations(resolve: &Resolve, func: &Function) 
 fn needs_deallocate(resolve: &Resolve, ty: &Type, what: Deallocate) -> bool {
     match ty {
         Type::String => true,
-        Type::ErrorContext => true,
+        // An error-context is a handle: it owns no list memory, so like
+        // `own<T>` it only matters when handles are being released.
+        Type::ErrorContext => what.handles(),
         Type::Id(id) => match &resolve.types[*id].kind {
             TypeDefKind::List(_) => true,
             TypeDefKind::Type(t) => needs_deallocate(resolve, t, what),
